@@ -99,6 +99,11 @@ def run(cx):
         cx.floor('C15.W1', len(dec), 2, 'decrement_ttl calls in updated_ttl')
         for s in dec:
             cx.check('C15.W1', bool(re.search(rf',{ELAPSED}\)$', s.term)), u.path, s.key(), 'decrement-by-elapsed', s.term[-150:], s.loc)
+        # every section of a positive response counts down: the decremented records range over answers, authorities and additionals
+        pos = [s for s in dec if cx.has_guard(s, r'^ok\(arg1\.result\)$')]
+        secs = {m for s in pos for m in re.findall(r'arg1\.result@Ok\.0\.(answers|authorities|additionals)\b', s.term)}
+        cx.check('C15.W1', secs == {'answers', 'authorities', 'additionals'}, u.path, 'sections', 'countdown-covers-all-three-sections',
+                 'records whose TTL is decremented on a cache hit come from: ' + ', '.join(sorted(secs)), pos[0].loc if pos else '')
         ss = cx.calls(u, r'num::<impl u32>::saturating_sub$|num::saturating_sub$')
         cx.check('C15.W1', len(ss) == 1 and bool(re.search(rf'^num::saturating_sub\(.*,{ELAPSED}\)$', ss[0].term)), u.path, 'call', 'negative-ttl-saturating-sub-elapsed', ss[0].term[:200] if ss else 'none')
     for sub in prog.find(r'^hickory_resolver::cache::Entry::updated_ttl::\{closure[^}]*\}'):
